@@ -66,8 +66,16 @@ var parserWorkReceiveChannel = func() chan<- jobIn {
 					}
 
 					values := make([]octosql.Value, len(job.fields))
-					for i := range values {
-						values[i], _ = getOctoSQLValue(job.fields[i].Type, o.Get(job.fields[i].Name))
+					for fieldIndex := range values {
+						var ok bool
+						values[fieldIndex], ok = getOctoSQLValue(job.fields[fieldIndex].Type, o.Get(job.fields[fieldIndex].Name))
+						if !ok {
+							out.err = fmt.Errorf("value of field '%s' doesn't match its inferred type %s: '%s'", job.fields[fieldIndex].Name, job.fields[fieldIndex].Type, string(job.data[i]))
+							break
+						}
+					}
+					if out.err != nil {
+						continue
 					}
 
 					out.record = NewRecord(values, false, time.Time{})
